@@ -20,7 +20,7 @@ ASSUMPTIONS = [
 COMPONENTS = {"real": ["mark/weak-reset/finalize/sweep", "ephemerons (chibi weak)", "fileno table (ephemerons keyed by fileno objects)", "port finalizers",
                        "EMFILE -> collect -> retry in open-*-file", "sexp_destroy_context"],
               "stub": ["collection schedule", "RLIMIT_NOFILE", "libc fopen/fclose/close wrappers (log + forward)"]}
-BUDGET = {"quick": {"seconds": 50, "cases": 6000}, "thorough": {"seconds": 900, "cases": 400000}}
+BUDGET = {"quick": {"seconds": 50, "cases": 6000, "min_cases": 250}, "thorough": {"seconds": 900, "cases": 400000}}
 CONFIGS = {
     "sim": {"variant": "sim", "imports": ["(chibi weak)", "(only (chibi) open-input-file-descriptor)"], "timeout_ms": 60000},
     "asan": {"variant": "asan", "imports": ["(chibi weak)", "(only (chibi) open-input-file-descriptor)"], "timeout_ms": 180000},
